@@ -26,6 +26,8 @@ stream and of every phase view handed out so far, prefixed by `err=<Class> ` whe
   iter <k>                list(s_k)                  (MultiStream.__iter__: the view of every phase, registered as handles)
   save <k>                snapshots.append(s_k.get_data())
   restore <k> <n>         s_k.set_data(snapshots[n])
+  tmp <k> <T|-> <P|->     contexts.append(s_k.temporary(T=, P=))       enter <c> / exit <c>   contexts[c].__enter__() / .__exit__(None, None, None)
+  with <k> <T|-> <P|->    with s_k.temporary(T=, P=): pass
   unlink <k>              s_k.unlink()
   link <k> <j> <f> <t>    s_k.link_with(s_j, flow=f, TP=t)
   copylike <k> <j>        s_k.copy_like(s_j)
@@ -52,6 +54,8 @@ Property oracle (real objects only), failure signatures:
   iter/not-the-views, view/alias-refused iteration does not yield the phase views; Stream[label in the other case] refused
   mass-view/<what>                       the stream's own mass accessor / F_mass disagrees with its molar flows (stale _data_cache)
   restore/raises, restore/mismatch       set_data of a snapshot raised / did not reproduce what get_data saw
+  temporary/enter, temporary/exit-mismatch, temporary/raises   a temporary(...) context did not set T/P on entering (or changed
+                                         flows/phases), did not put the stream back into the state it had ON ENTERING, or raised
   <op>/contents-changed                  view, save, T/P writes, a (refused) view.phase assignment, unlink or
                                          _reset_thermo changed flows/phases (unlink, thermo: also T, P)
   <op>/other-stream-changed              a conversion, unlink, _reset_thermo or proxy changed a stream that shares
@@ -92,6 +96,8 @@ ASSUMPTIONS = [
     'a conversion asked of a phase view (view.phases = two or more labels, view.vle/.lle/.sle) is modelled WITH patch '
     'fixes_proposed/C12-10 (refused: the phase of a view is locked); view.copy_like(multi) / view.set_data(multi snapshot) '
     'and one-phase MultiStreams (MultiStream(phases=(p,)) and its set_data branch) are not modelled and never generated',
+    'stream.temporary(T=, P=) contexts (created early, entered later, exited, and the one-line `with` form) are composed by the '
+    'driver from the model operations save / T,P write / restore; the flow= and phase= arguments of temporary() are not exercised',
     'invalid phase letters and empty phase sets are not generated',
 ]
 TRUSTED = ['Lean 4.33 kernel', 'correspondence harness harness/props/c12.py + Driver/C12.lean',
@@ -179,6 +185,9 @@ class Universe:
         self.snaps = []
         self.snap_obs = []
         self.solver = None          # what the last vle/lle/sle accessor returned
+        self.ctxs = []              # temporary(...) context objects
+        self.ctx_obs = []           # what the stream showed when the context was last entered (or created)
+        self.ctx_k = []
         use_chems(3)
 
     # ---- observation (real objects only) ---------------------------------------
@@ -284,6 +293,15 @@ class Universe:
                         kw[p] = [(c, float(Fraction(v))) for c, v in zip(CHEMS, vals.split(','))]
                 S.append(tmo.MultiStream(None, phases=phases, T=T, P=P, thermo=THERMOS[0], **kw))
             return
+        if op in ('enter', 'exit'):
+            c = int(t[1])
+            ctx = self.ctxs[c]
+            if op == 'enter':
+                self.ctx_obs[c] = self.obs(self.ctx_k[c])
+                ctx.__enter__()
+            else:
+                ctx.__exit__(None, None, None)
+            return
         if op in ('wview', 'wvT', 'wvP', 'vphase', 'hphases', 'hvle', 'hlle', 'hsle'):
             h = self.handles[int(t[1])]
             if op == 'wview': h.imol[CHEMS[int(t[2])]] = float(Fraction(t[3]))
@@ -341,6 +359,17 @@ class Universe:
             self.snap_obs.append(self.obs(int(t[1])))
         elif op == 'restore':
             s.set_data(self.snaps[int(t[2])])
+        elif op in ('tmp', 'with'):
+            kw = {}
+            if t[2] != '-': kw['T'] = float(Fraction(t[2]))
+            if t[3] != '-': kw['P'] = float(Fraction(t[3]))
+            if op == 'tmp':
+                self.ctxs.append(s.temporary(**kw))
+                self.ctx_obs.append(self.obs(int(t[1])))
+                self.ctx_k.append(int(t[1]))
+            else:
+                with s.temporary(**kw) as inner:
+                    self.with_inner = (inner is s, float(s.T), float(s.P))
         elif op == 'unlink':
             s.unlink()
         elif op == 'link':
@@ -579,7 +608,7 @@ def opkind(line):
 
 def optarget(line):
     t = line.split(' ')
-    if t[0] in ('new', 'chems', 'wview', 'wvT', 'wvP', 'vphase', 'hphases', 'hvle', 'hlle', 'hsle'): return None
+    if t[0] in ('new', 'chems', 'wview', 'wvT', 'wvP', 'vphase', 'hphases', 'hvle', 'hlle', 'hsle', 'enter', 'exit'): return None
     try: return int(t[1])
     except Exception: return None
 
@@ -631,6 +660,31 @@ def run_ops(ops):
                                            f'{U.nonempty(pre)}, snapshot has phases {U.snap_obs[n][1]}')
                 elif post != U.snap_obs[n]:
                     fail('restore/mismatch', f'set_data(snapshot {n}) gave {post} where get_data saw {U.snap_obs[n]}')
+        elif op in ('enter', 'exit') and post_all is not None:
+            t_ = line.split(' ')
+            c = int(t_[1])
+            if c < len(U.ctxs):
+                kc = U.ctx_k[c]
+                ctx = U.ctxs[c]
+                if err is not None:
+                    fail('temporary/raises', f'`{line}` raised {err}')
+                elif op == 'enter':
+                    want = U.ctx_obs[c]
+                    got = post_all[kc]
+                    wT = Fraction(ctx.T) if ctx.T is not None else want[3]
+                    wP = Fraction(ctx.P) if ctx.P is not None else want[4]
+                    if got[:3] != want[:3] or (got[3], got[4]) != (wT, wP):
+                        fail('temporary/enter', f'`{line}`: the stream shows {got} (before entering {want}, context T={ctx.T} P={ctx.P})')
+                elif post_all[kc] != U.ctx_obs[c]:
+                    fail('temporary/exit-mismatch', f'`{line}`: the stream is left as {post_all[kc]} where it was {U.ctx_obs[c]} '
+                                                    f'when the context was entered')
+        elif valid_k and op == 'with':
+            if err is not None or post is None:
+                fail('temporary/raises', f'`{line}` raised {err}')
+            elif post != pre:
+                fail('temporary/exit-mismatch', f'`{line}`: the stream is left as {post} where it was {pre} before the with block')
+        elif valid_k and op == 'tmp' and post is not None and pre != post:
+            fail('tmp/contents-changed', f'`{line}` (creating the context) changed the stream')
         elif valid_k and op in RESEATING:
             for sig, what in U.judge_reseat(line, pre_all, post_all, err):
                 fail(sig, what)
@@ -885,15 +939,20 @@ def gen_op(rng, U):
     multis = [j for j in range(nS) if U.kind(j) == 'M']
     kinds = ['sphases', 'sphase', 'reduce', 'asstream', 'vle', 'lle', 'sle', 'view', 'wview', 'wpar',
              'wT', 'wP', 'wvT', 'wvP', 'save', 'restore', 'empty', 'vphase',
-             'unlink', 'link', 'copylike', 'mix', 'thermo', 'proxy', 'new', 'hconv', 'iter']
+             'unlink', 'link', 'copylike', 'mix', 'thermo', 'proxy', 'new', 'hconv', 'iter', 'tmp', 'enter', 'exit', 'with']
     hv = 1 if U.handles else 0
     w = [14, 5, 4, 3, 3, 3, 3, 16 if kd == 'M' else 2, 8 * hv, 12,
          3, 2, 3 * hv, 1 * hv, 5, 7 if U.snaps else 0, 1, 1 * hv,
          6, 7 if len(multis) >= 2 and kd == 'M' else 0, 8, 7, 4, (2 if nS < 5 else 0), (1 if nS < 4 else 0),
-         4 * hv, 3]
+         4 * hv, 3, 4 if len(U.ctxs) < 3 else 0, 6 if U.ctxs else 0, 6 if U.ctxs else 0, 2]
     op = rng.choices(kinds, w)[0]
     if op == 'new': return gen_new(rng)
     if op == 'iter': return f'iter {k}'
+    if op in ('tmp', 'with'):
+        T = gen_T(rng) if rng.random() < 0.7 else '-'
+        P = gen_P(rng) if rng.random() < 0.5 else '-'
+        return f'{op} {k} {T} {P}'
+    if op in ('enter', 'exit'): return f'{op} {rng.randrange(len(U.ctxs))}'
     if op == 'hconv':
         h = rng.randrange(len(U.handles))
         r = rng.random()
@@ -1083,6 +1142,11 @@ def corpus():
         Case(['new M g,l,s 300 101325 l:4,0,0;s:0,1,0', 'iter 0', 'sphases 0 g,l', 'wview 1 0 3', 'iter 0', 'wvT 0 350']),
         # indexing a single-phase stream: its own label in either case answers the stream itself
         Case(['new S l 300 101325 1,0,0', 'view 0 L', 'view 0 l', 'view 0 g', 'iter 0', 'new S S 300 101325 0,1,0', 'view 1 s']),
+        # a temporary(...) context restores the state the stream had when the with block was ENTERED
+        Case(['new S l 300 101325 3,0,0', 'tmp 0 350 -', 'sphases 0 g,l', 'wpar 0 g 1 2', 'wT 0 320', 'enter 0', 'wpar 0 l 0 9',
+              'sphases 0 g,l,s', 'exit 0', 'enter 0', 'exit 0']),
+        Case(['new M g,l 300 101325 l:4,0,0;g:0,2,0', 'view 0 l', 'tmp 0 - 90000', 'wview 0 0 7', 'wP 0 120000', 'enter 0', 'sphase 0 l',
+              'exit 0', 'with 0 400 50000', 'exit 0']),
         # unlink after a link: the views follow the stream to its own copy (4329d3a)
         Case(['new M g,l 300 101325 l:4,0,0;g:0,2,0', 'new M g,l 350 90000 l:1,0,0', 'view 0 l', 'link 0 1 1 1', 'unlink 0',
               'wpar 0 l 0 7', 'wT 0 333']),
